@@ -5,5 +5,5 @@ cd "$(dirname "$0")/.."
 python3 -c "import sys; sys.path.insert(0,'tools'); import vlib; vlib.gen_coqproject()"
 cd coq
 coq_makefile -f _CoqProject -o Makefile > /dev/null
-timeout 3000 make -j16
+timeout 3000 make -k -j16 || echo "setup: some Coq files did not compile (each check re-verifies its own closure)"
 echo "setup ok"
